@@ -136,6 +136,14 @@ def run(rep: Report, prog: Program, tier: str) -> None:
     sleep_protocol(rep, "R16.1", "R16.2", prog)
     rep.floor("R16.1", 60)
     rep.floor("R16.2", 8)
+    rep.rule("R16.9", "DEFER hands the caller the delay: in execute mode the outcome of a deferred run carries next_sleep_s = the attempt outcome's sleep_s exactly when the decision is SCHEDULED - on the exception path and on the result path of both execute runners (= C11 R11.5); in call mode RetryExhaustedError.next_sleep_s likewise (= the next_sleep_s column of C04 R4.3)")
+    from .c04 import scheduled_action_fields
+    from .c11 import check_runner_fields
+    from .common import RuleView
+
+    check_runner_fields(RuleView(rep, "R16.9", only=("R11.5",)), prog)
+    scheduled_action_fields(rep, "R16.9", prog, only=("next_sleep_s",))
+    rep.floor("R16.9", 4)
 
     # ---- argument tables
     rep.rule("R16.3", "effect tables of _sync_sleep_action/_async_sleep_action/_handle_sleep_decision: a configured handler is consulted exactly once; handler(ctx, decision.sleep_s); before_sleep(ctx, decision.sleep_s); sleeper(decision.sleep_s); SCHEDULED emitted with sleep_s = decision.sleep_s and stop_reason SCHEDULED; ABORTED emitted once (guarded); decision returned unchanged")
